@@ -54,9 +54,15 @@ TEval    == Ev("eval")    /\ PostEvaluate(E.nm)
 TInv     == Ev("evalinv") /\ UnknownInvocable(E.nm)
 TBad     == Ev("bad")     /\ Malformed(E.kind)
 
+\* the service was started on a directory holding the models E.cands (WorkspaceCore!LoadDirLoose: some clash-free subset
+\* of them, loaded and deployed - which one, the probes tell); there is no reply to judge
+Cands    == {m \in Models : \E i \in DOMAIN E.cands : E.cands[i] = m.id}
+TStart   == Ev("start")   /\ l = 1 /\ \E T \in SUBSET Cands : LoadDirLoose(Cands, T)
+
 Max(a, b) == IF a > b THEN a ELSE b
-Step == /\ (TAdd \/ TReplace \/ TRemove \/ TClear \/ TDeploy \/ TEval \/ TInv \/ TBad)
-        /\ Reply /\ ProbeOk
+Step == /\ \/ (TAdd \/ TReplace \/ TRemove \/ TClear \/ TDeploy \/ TEval \/ TInv \/ TBad) /\ Reply
+           \/ TStart
+        /\ ProbeOk
         /\ Inv'
         /\ l' = l + 1 /\ p' = p
         /\ TLCSet(p, Max(TLCGet(p), l + 1))
